@@ -352,8 +352,30 @@ def delivery_texts(draw, max_lines, max_len, exotic):
         parts.append(body + term)
     return "".join(parts)
 
+# bulk bodies: 2 500 - 12 000 lines built from 1-3 template lines (plain data, expanded by bulk_text), so that gzip/deflate shrink
+# them 50 to 1000 times and one raw chunk inflates to far more text than it holds - the shape of one-hot / indicator tables
+BULK_COUNTS = [6000, 12000, 2500, 9000, 4000]
+BULK_PIECES = ["0", ",0", ",0", ",0", ",1", "a", "b", ",", " ", "é", "日", "\U0001F600", "0.5", ",?"]
+
+def bulk_text(b):
+    t, every, term = b["templates"], b["noise_every"], b["term"]
+    return "".join(t[i % len(t)] + (str(i) if every and i % every == 0 else "") + term for i in range(b["count"]))
+
+@st.composite
+def bulk_cases(draw):
+    nt = draw(st.sampled_from([1, 1, 2, 3]))
+    templates = ["".join(draw(st.lists(st.sampled_from(BULK_PIECES), min_size=6, max_size=24))) for _ in range(nt)]
+    bulk = {"templates": templates, "term": draw(st.sampled_from(["\n", "\r\n", "\n"])), "count": draw(st.sampled_from(BULK_COUNTS)),
+            "noise_every": draw(st.sampled_from([0, 0, 0, 997, 97, 10, 3]))}
+    enc = draw(st.sampled_from([None, "gzip", "deflate", "gzip", "deflate"]))
+    small = [64, 256, 700] if enc is None else [1, 7, 64, 256, 700]      # identity bodies are large: no byte-by-byte delivery
+    chunks = sorted({draw(st.sampled_from(small)), 1024, draw(st.sampled_from([1500, 2048, 4096, 8192])), draw(st.sampled_from([16384, 65536, 10485760]))})
+    return {"bulk": bulk, "encoding": enc, "charset": "utf-8", "chunks": chunks}
+
 @st.composite
 def byte_cases(draw, tier):
+    if draw(st.integers(0, 17)) == 0:
+        return draw(bulk_cases())
     small = draw(st.integers(0, 3)) > 0
     exotic = draw(st.integers(0, 4)) == 0
     if small:
